@@ -10,6 +10,7 @@ pub fn lookup(id: &str) -> Option<&'static PropDef> {
         "C14" => Some(&c14::DEF),
         "C15" => Some(&c15::DEF),
         "C17" => Some(&c17::DEF),
+        "C19" => Some(&c19::DEF),
         _ => None,
     }
 }
